@@ -44,7 +44,7 @@ static void mode_c06() {
         M.begin_case(c, "c06 " + s.descr() + (sparse ? " sparse" : ""));
         auto ps = make_grid(s);
         std::vector<double> rho;
-        int flavour = (int)r.range(0, 2);
+        int flavour = (int)r.range(0, 3);
         set_profiles(r, ps, s, rho, flavour);
         auto imp = std::make_shared<Impedance>(s.Z, (frequency_t)1e12);
         ElectricField ef(ps, imp, s.buckets, s.spacing, nullptr, s.frev, (meshaxis_t)s.revpart, s.Ib, s.E0, s.sE, s.dt);
@@ -105,7 +105,11 @@ static void fill_passive(Rng& r, Setup& s, int model, std::string& name) {
     double fmax = r.logu(1e11, 1e13), frev = r.logu(1e5, 1e7);
     std::unique_ptr<Impedance> imp;
     switch (model) {
-    case 0: name = "random"; for (size_t k = 0; k <= s.N / 2; k++) s.Z[k] = {(float)r.uni(0, 1), (float)r.uni(-1, 1)}; return;
+    case 0: name = "random"; for (size_t k = 0; k <= s.N / 2; k++) s.Z[k] = {(float)r.uni(0, 1), (float)r.uni(-1, 1)};
+            // like an impedance file that is longer than half the frequency grid: passive values above N/2 too; neither the wake nor the
+            // spectrum may see them (C06: "sees only the non-negative-frequency half")
+            if (r.chance(0.5)) { name = "random+upper"; for (size_t k = s.N / 2 + 1; k < s.N; k++) s.Z[k] = {(float)r.uni(0, 1), (float)r.uni(-1, 1)}; }
+            return;
     case 1: name = "freespace"; imp.reset(new FreeSpaceCSR(s.N, (frequency_t)frev, (frequency_t)fmax)); break;
     case 2: name = "parallelplates"; imp.reset(new ParallelPlatesCSR(s.N, (frequency_t)frev, (frequency_t)fmax, r.uni(0.01, 0.1))); break;
     case 3: name = "resistivewall"; imp.reset(new ResistiveWall(s.N, (frequency_t)frev, (frequency_t)fmax, physcons::c / frev, r.logu(1e5, 1e8), 0, r.uni(0.005, 0.05))); break;
@@ -148,7 +152,7 @@ static void mode_c07() {
         M.begin_case(c, "c07 " + mname + " " + s.descr());
         auto ps = make_grid(s);
         std::vector<double> rho;
-        int flavour = (int)r.range(0, 2);
+        int flavour = (int)r.range(0, 3);
         set_profiles(r, ps, s, rho, flavour);
         auto imp = std::make_shared<Impedance>(s.Z, (frequency_t)1e12);
         ElectricField ef(ps, imp, s.buckets, s.spacing, nullptr, s.frev, (meshaxis_t)s.revpart, s.Ib, s.E0, s.sE, s.dt);
@@ -232,7 +236,7 @@ static void mode_c07mb() {
         double cutoff = (c / 5) % 2 ? r.logu(1e9, 1e12) : 0;
         M.begin_case(c, "c07mb " + mname + " " + s.descr());
         auto ps = make_grid(s);
-        std::vector<double> rho; int flavour = (int)r.range(0, 2);
+        std::vector<double> rho; int flavour = (int)r.range(0, 3);
         set_profiles(r, ps, s, rho, flavour);
         auto imp = std::make_shared<Impedance>(s.Z, (frequency_t)1e12);
         ElectricField ef(ps, imp, s.buckets, 0, nullptr, s.frev, (meshaxis_t)s.revpart);
